@@ -101,7 +101,7 @@ def gen(rng, tier):
                 yield '%s %d %x' % (op, bits, v)
             for _ in range(40 if not thorough else 2000):
                 yield '%s %d %x' % (op, bits, struct_value(rng, bits))
-    n = 60000 if not thorough else 15000000
+    n = 60000 if not thorough else 8000000
     for _ in range(n):
         bits = rng.choice(WIDTHS)
         yield '%s %d %x' % (rng.choice(OPS_ALL), bits, struct_value(rng, bits))
